@@ -5,9 +5,11 @@ A fault-free, B storage faults (exact equality still required), C read faults (n
 
 from __future__ import annotations
 
+import builtins
 import hashlib
 import json
 import os
+import pathlib
 import pickle
 import shutil
 import subprocess
@@ -19,13 +21,14 @@ from . import kernel, pool, worldb
 from .kernel import SEED, Report, rng_for
 
 PROP = "C12"
+PINNED_MTIME_NS = 1_700_000_000_000_000_000
 ENCODINGS = ["utf-8", "ascii", "latin-1", "cp1252"]
 SPELLINGS = ["LF", "CRLF", "CR", "mixed"]
 
 TIERS = {
-    "quick": {"ascii_other_enc": 1, "b_per_text": 6, "c_per_text": 2, "c_texts": 1500, "child_pairs": 150,
+    "quick": {"ascii_other_enc": 1, "b_per_text": 6, "c_per_text": 2, "c_texts": 1500, "child_pairs": 150, "r_cases": 1500,
               "batch": 400, "min_seconds": 60},
-    "thorough": {"ascii_other_enc": 3, "b_per_text": 150, "c_per_text": 25, "c_texts": 100000, "child_pairs": 2500,
+    "thorough": {"ascii_other_enc": 3, "b_per_text": 150, "c_per_text": 25, "c_texts": 100000, "child_pairs": 2500, "r_cases": 30000,
                  "batch": 600, "min_seconds": 600},
 }
 
@@ -71,6 +74,28 @@ def build_cases(tier: str) -> list[dict]:
             for sp in ("LF", "CRLF"):
                 cases.append({"config": "A", "content": worldb.respell(body + tail, sp), "encoding": "utf-8",
                               "spelling": sp, "final_newline": True, "faults": [], "read_fault": None})
+    # configuration A, buffer boundaries: a two-line error span placed just before, across and just after the 8 Ki,
+    # 64 Ki and 128 Ki character marks (ASCII padding, and padding with a 2-byte character so that bytes != characters)
+    for mark in (8192, 65536, 131072):
+        for padline in ("v = 1\n", "\u00e9 = 1\n"):
+            for shift in (-2, -1, 0, 1, 2):
+                n = mark // len(padline) + shift
+                # an error whose reported span starts on one line and ends on the next
+                content = padline * n + "x = (1\n 2)\ny = 2\n"
+                cases.append({"config": "A", "content": content, "encoding": "utf-8", "spelling": "LF",
+                              "final_newline": True, "faults": [], "read_fault": None})
+    # configuration R: in-place rewrite of the same path with same-size content under a pinned file-system clock
+    by_len: dict[int, list[str]] = {}
+    for t in texts:
+        if len(t) <= 120:
+            by_len.setdefault(len(t.encode("utf-8")), []).append(t)
+    rng = rng_for(SEED, PROP, "R")
+    groups = [g for g in by_len.values() if len(g) >= 2]
+    for _ in range(cfg["r_cases"]):
+        g = rng.choice(groups)
+        prev, cur = rng.sample(g, 2)
+        cases.append({"config": "R", "content": cur, "previous": prev, "encoding": "utf-8", "spelling": "LF",
+                      "final_newline": cur.endswith("\n"), "faults": [], "read_fault": None})
     # configuration A, options: the same arguments on both sides
     for ti, t in enumerate(texts):
         if ti % 9 == 0:
@@ -162,7 +187,23 @@ def run_pair(case: dict, env: worldb.SimEnv, scratch: str) -> dict:
         env.read_fault_at = rf["at_call"]
         env.read_fault_open_index = rf["open"]
     fired0 = env.read_faults_fired
-    path = worldb.store(scratch, content)
+    prev = case.get("previous")
+    if prev is not None:
+        # the same path held other content of the same size a moment ago, was parsed, and has been rewritten in place
+        # while the file system's clock did not advance (coarse timestamps, cp -p, rsync -t)
+        slot = pathlib.Path(scratch) / "slot.xsh"
+        for text in (prev, content):
+            with builtins.open(slot, "wb") as f:
+                f.write(text.encode("utf-8"))
+            os.utime(slot, ns=(PINNED_MTIME_NS, PINNED_MTIME_NS))
+            if text is prev:
+                try:
+                    XonshParser.parse_file(slot)
+                except BaseException:  # noqa: BLE001 - only its side effects on later calls matter
+                    pass
+        path = slot
+    else:
+        path = worldb.store(scratch, content)
     raw_exc = [None]
 
     opts = case.get("opts") or {}
@@ -351,7 +392,9 @@ def _minimise_child(args: dict) -> dict:
 
         content = case["content"]
         n = 2
-        while len(content) >= 2 and time.monotonic() < deadline:
+        # a rewrite case depends on what the same process parsed before; candidates run in one process here, so
+        # shrinking it would measure the minimiser's own history: such cases (<= 120 characters) are kept as they are
+        while len(content) >= 2 and time.monotonic() < deadline and case.get("previous") is None:
             chunk = max(1, len(content) // n)
             reduced = False
             for start in range(0, len(content), chunk):
@@ -389,7 +432,11 @@ def check(tier: str) -> int:
     for c in cases:
         if c["config"] == "A" and c["content"] in want and c["encoding"] in ("utf-8", "ascii"):
             c["want_outcome"] = True
-    batches = [cases[i:i + cfg["batch"]] for i in range(0, len(cases), cfg["batch"])]
+    # heavy cases (large files) get batches of their own and go first, so that they do not queue up behind each other
+    heavy = [c for c in cases if len(c["content"]) > 5000]
+    light = [c for c in cases if len(c["content"]) <= 5000]
+    batches = [[c] for c in sorted(heavy, key=lambda c: -len(c["content"]))]
+    batches += [light[i:i + cfg["batch"]] for i in range(0, len(light), cfg["batch"])]
     print(f"{len(cases)} pairs in {len(batches)} batches; {len(child_contents)} contents repeated in {len(REAL_ENVS)} real interpreters")
     report = Report(PROP)
     agg = {"pairs": 0, "by_config": {}, "second_opens": 0, "faults_fired": 0, "fault_surfaced": 0,
@@ -472,7 +519,7 @@ def check(tier: str) -> int:
             "base": case.get("base"), "faults": case.get("faults"), "content": case["content"],
             "original_content": v["case"]["content"], "newline": case.get("spelling"),
             "encoding_env": case["encoding"], "real_env": case.get("real_env"), "entry": "parse_file vs parse_string:exec",
-            "read_fault": case.get("read_fault"),
+            "read_fault": case.get("read_fault"), "previous": case.get("previous"), "opts": case.get("opts"),
             "violation": {"kind": "disagree", "key": key, "got": m["file"] if m else v["file"],
                           "other": m["string"] if m else v["string"]},
         }
@@ -488,7 +535,9 @@ def check(tier: str) -> int:
         "rule": "one evaluation = one (stored content, environment) pair: parse_file on the stored UTF-8 bytes under the "
                 "simulated default encoding vs parse_string(exec) on the same text. Contents: pool texts and tests/data "
                 "files x newline spelling (LF/CRLF/CR/mixed) x final newline (yes/no) x default encoding (utf-8/ascii/"
-                "latin-1/cp1252) [config A]; the same after 1-3 storage faults [B]; EIO at the k-th read of the first or "
+                "latin-1/cp1252), large files with an error span swept across the 8 Ki / 64 Ki / 128 Ki marks, file-name forms, "
+                "py_version / verbose passed to both sides [config A]; the same path rewritten in place with same-size content under a "
+                "pinned clock [R]; the same after 1-3 storage faults [B]; EIO at the k-th read of the first or "
                 "second open [C]; plus a subset repeated in real child interpreters under four real locale settings. "
                 "non-trivial = distinct (content, encoding, read fault) tuples that are not (ASCII, LF, valid, un-faulted).",
         "samples": samples,
@@ -519,6 +568,7 @@ def check(tier: str) -> int:
     }
     kernel.write_evidence(PROP, tier, "exploration", coverage, [
         "files are UTF-8 without BOM or coding cookie",
+        "configuration R: the same path rewritten in place with same-size content while the mtime is pinned",
         "latin-1 and cp1252 default encodings run on the stub only (locales not installed)",
         "a read error may surface as the injected error; otherwise the outcome must equal the string outcome for the full content",
     ], wall, len(report.violations))
@@ -533,7 +583,8 @@ def replay(path: str) -> int:
     kernel.setup_repo_import()
     key = data["violation"]["key"]
     case = {"config": data["provenance"].get("config", "A"), "content": data["content"],
-            "encoding": data["encoding_env"], "read_fault": data.get("read_fault"), "spelling": data.get("newline")}
+            "encoding": data["encoding_env"], "read_fault": data.get("read_fault"), "spelling": data.get("newline"),
+            "previous": data.get("previous"), "opts": data.get("opts")}
     if data.get("real_env"):
         res = run_real_children([data["content"]])[data["real_env"]]
         fo, so, got = res["results"][0]
